@@ -52,7 +52,16 @@ PROP = dict(
           "2^32-1, 2^31; touch: SSIZE_MAX, SSIZE_MAX-1, 2^62, 2^32, 2^31) on insert/emplace/touch/change_size of new and existing keys; "
           "one history in 40 runs over a universe of 60..200 keys: a build-up phase puts 60..150 distinct keys into one instance (several "
           "rehashes of the hash table, nothing removed), then the usual mix with clear() twice as likely continues for up to 150 operations. "
-          "Non-trivial: a history in which, with >= 2 "
+          "Arguments that refer into the container (all parameters are references): about one random operation in 14 passes the stored key object "
+          "itself as the key of insert / erase / touch (both containers), or - gated build, insert(const K&, const V&, size) - the value stored "
+          "under the same key (m.insert(k, m.at(k), n)) or under another key as the value; an absent entry falls back to a fresh argument. "
+          "Large populations (mode 2, int64 and PathKey keys, plain / NDEBUG / gated builds): one random history in 600 and three fixed ones per "
+          "container type (N = 2600, 5400, 11000; thorough also 2358, 7000, 16000) put N = 2,400..12,000 distinct keys into one container (a touch / "
+          "re-insert / erase of an earlier key after every 8th insertion; the hash table rehashes 9..11 times), drain it by evict_object() to a rest of "
+          "{0, 1, 2, 17, N/64, N/32, N/20, N/10, N/3} entries with a touch / insert / erase every 16th step, use it on for 24 operations and drain it "
+          "to empty: every eviction is compared with the model's least recently used entry (key, size, value), peek() (set) / item_size of the LRU key "
+          "and empty() (map), size() and count() after every operation, the link walk at the phase boundaries and every 2048 operations. "
+          "Non-trivial: every large-population history; otherwise a history in which, with >= 2 "
           "live keys, an operation moved an existing key to the front from a non-front position and a later erase or eviction "
           "succeeded. Distinct = distinct histories (hash of the operation words per container type)."),
     assumptions=["single-threaded use",
@@ -66,6 +75,8 @@ PROP = dict(
                  "size_t, and is not compared in states where it is not (counted under the class 'states-with-unrepresentable-sum'); item sizes, "
                  "peek/evict sizes and everything else are compared in every state",
                  "evict_object()/peek() on an empty container and at()/item_size() of an absent key throw std::out_of_range (what the code documents); no other behaviour is specified for them",
+                 "an argument may refer to an object inside the container (the stored value of the same or of another key, the stored key object): "
+                 "the call behaves as if it had been given a copy taken before the call",
                  "emplace on an existing key changes nothing (value, size and recency stay), like std::unordered_map::emplace",
                  "the exhaustive enumerator compares the full state only after the last operation of each history: the state after "
                  "every proper prefix is compared when that shorter history is enumerated (deterministic container); return values "
